@@ -73,6 +73,7 @@ func genXZWCase(r *sim.Rng, tier string, idx int, tail bool) *WCase {
 		marks = []int{int(cfg.BlockSize), 2 * int(cfg.BlockSize), 65536}
 	}
 	c := &WCase{Format: "xz", XZ: &cfg, Payload: pl, Ops: genHistory(r, n, false, marks, tail)}
+	c.Sink.ByteWriter = r.Chance(1, 6) // a sink that also implements io.ByteWriter (bufio.Writer, bytes.Buffer)
 	c.RDict = sim.Pick(r, []int{4096, 4096, 4096, 8192, 1 << 16})
 	if big && r.Chance(1, 4) {
 		c.RDict = 0
